@@ -178,9 +178,11 @@ def stepStat (args pyout : Sexp) : String :=
           let chunked := vk == .none && ak == .tuple && nRed > 0 && nRed + 1 == sh.length &&
             size > nmax && !sel.isSlice
           let vsh := viewShape' v
-          let inP := codeNanAware cfg sel vk || noNanInScope data sel vk v
+          let nanOk := codeNanAware cfg sel vk || noNanInScope data sel vk v
+          -- hypothesis of `stat_refines_spec_partial`
+          let inP := statP cfg sh data sel vk v red
           let br :=
-            if !inP then "plain-nan" else
+            if !nanOk then "plain-nan" else if !inP then "outside-P" else
             if chunked then (if sel.isNone then "chunked-nosel" else "chunked-masked")
             else match sel with
               | .none => "nosel"
